@@ -3,7 +3,7 @@
    and nothing else. *)
 From AK Require Import Base.Prelude Base.Sx Bytes.Text Bytes.FabHeader Bytes.BinFile
   Reader.Select Reader.BoxRead Reader.Level Plotfile.TextHeader Taste.Taste Writers.Colander
-  Array.Paint Mandoline.Plate.
+  Array.Paint Mandoline.Plate Whip.Whip.
 
 Definition as_Zs := as_list as_Z.
 Definition as_optZ := as_opt as_Z.
@@ -301,6 +301,19 @@ Definition e_plate (s : sx) : sx :=
   | _ => bad_request
   end.
 
+(* ---- C10: whip ----
+   request: (levels limit nfields fidx orders nx ny nz) -> the (nx, ny, nz)
+   float64 grid in C order as one byte string *)
+Definition e_whip (s : sx) : sx :=
+  match s with
+  | SL [lvs; SZ limit; SZ nfields; SZ fidx; orders; SZ nx; SZ ny; SZ nz] =>
+      req (do lvs <- as_list dec_level lvs; do orders <- as_list (as_list as_nat) orders; Some (lvs, orders))
+          (fun '(lvs, orders) =>
+             of_result (fun c => SB (concat (render3 c (Z.to_nat nx) (Z.to_nat ny) (Z.to_nat nz))))
+                       (whip lvs (Z.to_nat limit) nfields fidx orders))
+  | _ => bad_request
+  end.
+
 Definition entries : list (string * (sx -> sx)) :=
   [ ("getitem", e_getitem);
     ("iter_all", e_iter_all);
@@ -318,7 +331,8 @@ Definition entries : list (string * (sx -> sx)) :=
     ("taste", e_taste);
     ("taste_all", e_taste_all);
     ("colander", e_colander);
-    ("plate", e_plate)
+    ("plate", e_plate);
+    ("whip", e_whip)
   ]%string.
 
 Fixpoint find_entry (name : string) (l : list (string * (sx -> sx))) : option (sx -> sx) :=
